@@ -42,9 +42,10 @@ Pred(doc, req, router) == IF router = "g" THEN MuxObs(doc, req, FALSE, FALSE) EL
 
 JudgeObs(line, i, router) ==
    LET obs == line[router][i]
-       failed == Failed(line.doc, line.reqs[i], obs)
+       failed == FailedFor(router, line.doc, line.reqs[i], obs)
    IN IF failed # {} THEN Report(line, i, router, obs, failed)
-      ELSE \/ Gist(obs) = Gist(Pred(line.doc, line.reqs[i], router))
+      ELSE \/ router = "l" /\ HasMixed(line.doc)      \* the legacy model does not cover mixed segments
+           \/ Gist(obs) = Gist(Pred(line.doc, line.reqs[i], router))
            \/ CSVWrite("%1$s", <<ToJson([case |-> line.case, doc |-> line.doc, req |-> line.reqs[i], router |-> router,
                                           obs |-> obs, model |-> Pred(line.doc, line.reqs[i], router)])>>,
                        "fidelity.ndjson")
